@@ -382,7 +382,7 @@ def null_state():
 
 # ----------------------------------------------------------------------------------------- histories
 HISTORY_KINDS = ["built", "solved", "unbounded", "recorded", "outside", "exception", "solve_raises", "null_eval",
-                 "partition", "lmi_solved"]
+                 "partition", "lmi_solved", "subset"]
 
 
 def small_solvable(rng, lmi=False):
@@ -467,6 +467,26 @@ def history_item(rng, kind=None):
                         pep.add_constraint(3)                                   # AssertionError mid-model
                 except (AssertionError, TypeError, ValueError):
                     pass
+        elif kind == "subset":
+            # a new PEP in which only SOME of the classes are used (no point, or no function, or no expression ...)
+            PEP()
+            use = set(rng.sample(["point", "expression", "function", "composite", "constraint", "psd", "partition"],
+                                 rng.randint(1, 3)))
+            if "point" in use:
+                Point()
+            es = [Expression() for _ in range(rng.randint(1, 3))] if ("expression" in use or "constraint" in use
+                                                                      or "psd" in use) and rng.random() < 0.8 else []
+            if "function" in use:
+                Function(is_leaf=True)
+            if "composite" in use:
+                Function(is_leaf=False, decomposition_dict=dict())
+            if "constraint" in use:
+                for _ in range(rng.randint(1, 3)):
+                    Constraint(es[0] if es else null_expression, "inequality")
+            if "psd" in use:
+                PSDMatrix([[es[0] if es else null_expression]])
+            if "partition" in use:
+                BlockPartition(rng.choice([1, 2]))
         elif kind == "solve_raises":
             pep = small_solvable(rng)
             try:
@@ -514,7 +534,7 @@ def fresh_dump(seed, size, verbose, wrapper=RECORDER, timeout=300):
 
 
 def run_chain(chain):
-    """chain: list of ["hist", kind, item_seed] | ["prog", seed, size, verbose] | ["progcvx", seed, verbose], run in order in
+    """chain: list of ["hist", kind, item_seed] | ["prog", seed, size, verbose] | ["nullstate"], run in order in
     THIS process.  Returns the list of dumps of the prog items."""
     out = []
     for it in chain:
@@ -526,6 +546,8 @@ def run_chain(chain):
         elif it[0] == "prog":
             dump, ret, text, info = run_program(it[1], it[2], it[3])
             out.append(dict(dump=dump, ret=ret, printed=len(text)))
+        elif it[0] == "nullstate":
+            out.append(dict(null=null_state()))
         else:
             raise KeyError(it[0])
     return out
